@@ -11,7 +11,7 @@ prop = Prop(
     level="exploration",
     technique="Hypothesis PBT: metamorphic (same program under several chaos schedules) + differential against an independent reference interpreter, on a deterministic event loop",
     rule=(
-        "programs = state-aware random compositions (<= 12 blocks) of source/map/dot-product zip/scatter/gather/conditional/"
+        "programs = state-aware random compositions (<= 12 blocks) of source/map/dot-product zip/scatter/gather/cartesian cross-product (flat and nested)/conditional/"
         "loop/schedule+execute blocks; each program is run under asyncio's default order and under 3 (quick) drawn schedules "
         "of delays at external waits (DB calls, commands, transformer bodies). Non-trivial = some stream carries >= 2 tokens "
         "AND two of the runs persisted their tokens in different global orders (measured from persistent ids); distinct by program+schedules."
@@ -22,7 +22,7 @@ prop = Prop(
 )
 prop.engine = "detloop"
 
-ALL_OPS = ("map", "zip", "scatter", "gather", "cond", "loop", "exec")
+ALL_OPS = ("map", "zip", "scatter", "gather", "cond", "loop", "exec", "cross")
 case_strategy = st.fixed_dictionaries(
     {
         "prog": progs.program_strategy(ops=ALL_OPS),
